@@ -41,6 +41,24 @@ def tag_paragraph_layouts(rnd):
     return lay(), lay()
 
 
+MULTIWORD = ["*em one two*", "**strong a b**", "~x y z~", "~~gone for good~~", "[link text here](http://x.y)", "`code a b`",
+             "_under score_", "***both of them***", "[ref text][ref]", "![alt text](i.png)"]
+
+
+def inline_paragraph_layouts(rnd):
+    """one paragraph whose inline constructs span several words, in two layouts that differ only in which inter-word
+    spaces are soft line breaks (also inside the constructs)"""
+    words = []
+    for _ in range(rnd.choice((3, 5, 8))):
+        words += (rnd.choice(MULTIWORD) if rnd.random() < 0.4 else rnd.choice(PLAINW)).split(" ")
+    if words[0][0] in "*_~[`!":
+        words.insert(0, "Then")
+
+    def lay():
+        return "".join(w if k == 0 else (("\n" if rnd.random() < 0.3 else " ") + w) for k, w in enumerate(words)) + "\n"
+    return lay(), lay()
+
+
 def bounded(tier, seed):
     rnd = random.Random(seed)
     n = 80 if tier == "quick" else 800
@@ -76,10 +94,20 @@ def bounded(tier, seed):
                 if oa != ob:
                     viol.append({"clause": "relayout_invariant", "input": {"text": da, "other_layout": db, "options": {"width": w, "semantic": sm},
                                                                            **P.doc_features(da)}, "got": ob[:6000], "want": oa[:6000]})
+    # inline constructs spanning several words: a soft break anywhere between two words is not significant
+    for i in range(60 if tier == "quick" else 600):
+        a, b = inline_paragraph_layouts(rnd)
+        for w, sm in ((88, False), (30, True)):
+            oa, ob = P.fmt(a, width=w, semantic=sm), P.fmt(b, width=w, semantic=sm)
+            evals += 1
+            distinct.add(oa)
+            if oa != ob:
+                viol.append({"clause": "relayout_invariant", "input": {"text": a, "other_layout": b, "options": {"width": w, "semantic": sm},
+                                                                       **P.doc_features(a)}, "got": ob[:6000], "want": oa[:6000]})
     return {"evaluations": evals, "distinct_nontrivial": len(distinct), "violations": viol, "samples": [{"text": docs[0]}],
             "rule": "seeded documents (no hazard words): multiplying inter-word spaces leaves the output unchanged at (88,fill), "
                     "(20,fill), (30,semantic); formatting first with (w1,mode1) and then with (w2,mode2) equals formatting with "
-                    "(w2,mode2) directly; seeded paragraphs (plain and in a list item) with template tags / comments in mid-line position and list-like words, in two soft-break layouts: same output; distinct = distinct baseline outputs",
+                    "(w2,mode2) directly; seeded paragraphs (plain and in a list item) with template tags / comments in mid-line position and list-like words, in two soft-break layouts: same output; seeded paragraphs whose inline constructs (emphasis, strong, one- and two-tilde strikethrough, link text, code span, image alt) span several words, in two soft-break layouts: same output; distinct = distinct baseline outputs",
             "exhaustive": False, "bound": "%d documents" % n}
 
 
